@@ -192,7 +192,9 @@ def r4(R):
                 fn2 = mm.enclosing_function(c)
                 R.check(ok, "C02.R4", rel, c.lineno, mm.qualname(fn2) if fn2 else "<module>", "omega1, omega2, valid = g_to_k(...)",
                         "the validity mask returned by g_to_k is discarded")
-                if ok and fn2 is not None:
+                if ok and fn2 is not None and "sandbox" not in rel.split("/"):
+                    # (the experimental scripts under sandbox/ are only required to take the mask, thorough tier; what they do with it
+                    # is not a library route of the property)
                     v = src(st.targets[0].elts[2])
                     used = [x for x in ast.walk(fn2) if isinstance(x, ast.Name) and x.id == v and isinstance(x.ctx, ast.Load)]
                     R.check(bool(used), "C02.R4", rel, c.lineno, mm.qualname(fn2), "mask '%s' is used after the call" % v, "the validity mask is bound but never used")
